@@ -39,6 +39,8 @@ fn leaf_alphabet(leaf: &VerifierCircuitData<F, C, D>) -> Vec<Item> {
             sp("b", 12, 0, u32::MAX, 0, two31(), 0, x, dig(12)),
             sp("c", 13, 0, u32::MAX, 0, two31(), 7, x, dig(13)),
             sp("d", 14, 0, u32::MAX, 0, two31() - 1, 0, x, dig(14)),
+            // pays X through its SECOND output: with b the group sum reaches 2^32 across output positions
+            sp("k", 18, 0, u32::MAX, 0, 0, two31(), dig(19), x),
             sp("g", 15, 0, 1000, 20, 1, 1, dig(15), dig(16)),
             sp("i", 16, 1, 1000, 0, 3, 3, x, y),
             sp("j", 17, 1, 1000, 0, 4, 0, dig(17), dig(18)),
@@ -159,7 +161,7 @@ fn c14(tier: &str, thorough: bool) -> i32 {
         let pool = ProverPool { zk: false, n, leaf: leaf.clone(), dummy: dummy.clone(), free: Mutex::new(vec![]), built: 0.into() };
         let prod = ProverPool { zk: true, n, leaf: leaf.clone(), dummy: dummy.clone(), free: Mutex::new(vec![]), built: 0.into() };
         // vectors
-        let alpha: Vec<usize> = if thorough { (0..items.len()).collect() } else { ["a", "b", "c", "d", "g", "h", "i", "dm", "d1", "t2"].iter().map(|s| idx(s)).collect() };
+        let alpha: Vec<usize> = if thorough { (0..items.len()).collect() } else { ["a", "b", "c", "d", "k", "g", "h", "i", "dm", "d1", "t2"].iter().map(|s| idx(s)).collect() };
         let over: Vec<usize> = ["a", "b", "dm"].iter().map(|s| idx(s)).collect();
         let mut vectors: Vec<Vec<usize>> = vec![vec![]];
         for len in 1..=n {
